@@ -9,7 +9,7 @@ NAMES = ["alpha", "beta2", "x", "solve_it", "t_node", "m1", "Grid", "a_b_c", "re
 TRICKY = ["function_x", "myfunction", "subroutine", "my_subroutine", "end", "type", "is", "block", "data", "procedure",
           "module", "contains", "result", "bind", "program", "interface", "final", "use", "blockdata", "enum",
           "functions", "procedures", "endfile", "real", "integer", "public", "sequence", "format", "associate", "block_x"]
-PWORDS = ["PPure", "PElemental", "PRecursive", "PImpure", "PNonRecursive", "PModule"]
+PWORDS = ["PPure", "PElemental", "PRecursive", "PImpure", "PModule"]
 EWORDS = ["EModule", "ESubmodule", "ESubroutine", "EFunction", "EProcedure", "EProgram", "EType", "EInterface", "EEnum",
           "EBlockData"]
 GENERIC = ["operator(+)", "assignment(=)", "operator(.dot.)", "write(formatted)", "operator( == )"]
@@ -37,6 +37,12 @@ def ident(rng, tricky=0.15):
     if rng.random() < 0.2:
         n = n.upper() if rng.random() < 0.5 else n.capitalize()
     return n
+
+
+def label(rng):
+    if rng.random() < 0.85:
+        return "None"
+    return f"(Some ({coq_str(rng.choice(['10', '999', '1']))}, {nb(rng)}))"
 
 
 def opt_name(rng, tricky=0.15):
@@ -128,9 +134,10 @@ def gen_line(rng, tricky=0.15):
                           ("KBlockData", False, 0), ("KModule", True, 0), ("KSubmodule", False, 0),
                           ("KModProcImpl", False, 0)]
     if f == "XEnd":
-        return f, f"XEnd {mask(rng)}", any_ctx
+        return f, f"XEnd {label(rng)} {mask(rng)}", any_ctx
     if f == "XEndUnit":
-        return f, f"XEndUnit {mask(rng)} {mask(rng)} {nb(rng)} {rng.choice(EWORDS)} {opt_name(rng, tricky)}", any_ctx
+        return f, (f"XEndUnit {label(rng)} {mask(rng)} {mask(rng)} {nb(rng)} {rng.choice([1, 1, 1, 0, 2])} {rng.choice(EWORDS)} "
+                   f"{opt_name(rng, tricky)}"), any_ctx
     if f == "XEndBlock":
         return f, f"XEndBlock {mask(rng)} {mask(rng)} {nb(rng)} {opt_name(rng, tricky)}", [("KSubroutine", False, 1), ("KProgram", False, 1)] + unit_ctx
     if f == "XEndAssociate":
@@ -153,7 +160,8 @@ def gen_line(rng, tricky=0.15):
         return f, (f"XBound {mask(rng)} {mask(rng)} {nb(rng)} {nb(rng)} {nb(rng)} {nb(rng)} {nb(rng)} {binds}"), \
             [("KType", True, 0)]
     if f == "XFinal":
-        return f, f"XFinal {mask(rng)} {nb(rng)} {nb(rng)} {nb(rng)} {vars_()}", [("KType", True, 0)]
+        dc = "None" if rng.random() < 0.25 else f"(Some ({nb(rng)}, {nb(rng)}))"
+        return f, f"XFinal {mask(rng)} {dc} {nb(rng)} {nb(rng)} {vars_()}", [("KType", True, 0)]
     if f == "XModProcRef":
         dc = "None" if rng.random() < 0.6 else f"(Some ({nb(rng)}, {nb(rng)}))"
         return f, f"XModProcRef {mask(rng)} {mask(rng)} {nb(rng)} {dc} {nb(rng)} {nb(rng)} {vars_()}", [("KInterface", False, 0)]
@@ -166,7 +174,7 @@ def gen_line(rng, tricky=0.15):
         lab = "None" if rng.random() < 0.5 else f"(Some ({coq_str(I())}, {nb(rng)}, {nb(rng)}))"
         return f, f"XBlock {lab} {mask(rng)}", unit_ctx[1:]
     if f == "XAssociate":
-        return f, f"XAssociate {mask(rng)} {nb(rng)} {coq_str(I())} {coq_str(rng.choice(['x1', 'f(2)', 'a%b', 'y + 1']))}", unit_ctx[1:]
+        return f, f"XAssociate {mask(rng)} {nb(rng)} {coq_str(I())} {coq_str(I())}", unit_ctx[1:]
     if f == "XImplicitNone":
         return f, f"XImplicitNone {mask(rng)} {mask(rng)} {nb(rng)}", unit_ctx
     return f, f"XExec {rng.randrange(11)}", unit_ctx[1:]
